@@ -21,7 +21,8 @@ from harness import core
 def net3(rng, pp, symmetric):
     net = pp.create_empty_network(sn_mva=rng.choice([1.0, 10.0]))
     hv = pp.create_bus(net, 10.)
-    pp.create_ext_grid(net, hv, vm_pu=rng.choice([1.0, 1.02]), s_sc_max_mva=10000, rx_max=0.1, r0x0_max=0.1, x0x_max=1.0)
+    pp.create_ext_grid(net, hv, vm_pu=rng.choice([1.0, 1.02]), s_sc_max_mva=rng.choice([10000, 500]), rx_max=0.1,
+                       r0x0_max=rng.choice([0.1, 0.4]), x0x_max=rng.choice([1.0, 3.0]))
     lv = pp.create_bus(net, 0.4)
     pp.create_transformer_from_parameters(net, hv, lv, 1.6, 10, 0.4, 0.78125, 6, 2.7, 0.16875, shift_degree=rng.choice([0, 150]),
                                           vk0_percent=6, vkr0_percent=0.78125, mag0_percent=100, mag0_rx=0., si0_hv_partial=0.9,
@@ -37,7 +38,7 @@ def net3(rng, pp, symmetric):
         bb = pp.create_bus(net, 0.4)
         pp.create_switch(net, buses[-1], bb, et="b", closed=True)
         buses.append(bb)
-    load_buses = buses[1:]
+    load_buses = buses[1:] + ([hv] if rng.random() < 0.4 else [])      # also a load at the ext_grid bus
     for b in load_buses:
         if symmetric:
             pp.create_load(net, b, rng.choice([0.02, 0.05]), rng.choice([0.005, 0.01]), scaling=rng.choice([1.0, 1.0, 0.8]))
@@ -130,6 +131,13 @@ def run(ctx):
                 if bad:
                     break
             if not bad:
+                for i in net.ext_grid.index:
+                    for ph in "abc":
+                        for col, sym_col in ((f"p_{ph}_mw", "p_mw"), (f"q_{ph}_mvar", "q_mvar")):
+                            got, want = float(net.res_ext_grid_3ph.at[i, col]), float(net.res_ext_grid.at[i, sym_col]) / 3
+                            if abs(got - want) > 1e-6:
+                                bad = f"ext_grid {i}: {col} = {got!r}, one third of the symmetric value = {want!r}"
+            if not bad:
                 for i in net.line.index:
                     for ph in "abc":
                         got = float(net.res_line_3ph.at[i, f"p_{ph}_from_mw"])
@@ -192,7 +200,7 @@ def run(ctx):
                         ctx.failure("bus-sum", f"bus {b} phase {ph}: res_bus_3ph p = {got!r}, sum of the element powers = {p!r}", case)
                         break
         ctx.sample({"symmetric": symmetric, "buses": len(net.bus)}, cap=4)
-    ctx.assumptions.append("wye-connected loads only (delta loads report line-to-line quantities); no load at the ext_grid bus; Dyn "
+    ctx.assumptions.append("wye-connected loads only (delta loads report line-to-line quantities); Dyn "
                            "transformer; tolerances 1e-5 pu / 1e-3 degree / 1e-6 MW (solver tolerance 1e-8 MVA per sequence)")
 
 
